@@ -278,6 +278,9 @@ func (f *WorkFile) SetUse(dirs []*Use) {
 	for _, d := range f.Use {
 		if modulePath, ok := need[d.Path]; ok {
 			d.ModulePath = modulePath
+			// Keep only the first use of each requested path, and do not
+			// add it again below.
+			delete(need, d.Path)
 		} else {
 			d.Syntax.markRemoved()
 			*d = Use{}
